@@ -40,6 +40,7 @@ EXPLANATION = (
 ASSUMPTIONS = [phys.POSITIVITY_TEXT, "mean quantities (density, compressibility, mean temperature) are symmetric under branch reversal"]
 TECHNIQUE = "substitution in rational normal forms of the kernels; per-class value numbering of pit construction"
 EXPLANATION += (' ' + '(R9.10, shared with C04 R4.12) out of service is equivalent to absent also in the per-junction multiplicities (counting groupings take in-service rows only).')
+EXPLANATION += (' ' + '(R9.3, restated in round 8) what adds up along a pipe (length, loss coefficient) is divided by the section count, what describes every section (diameter, roughness, heat transfer coefficient, ambient temperature) is repeated. (R9.11, shared with C04 R4.8) hooks on the reduced pit read no element table.')
 
 P_FROM, P_TO, DH = ("sym", "p_init_i_abs"), ("sym", "p_init_i1_abs"), ("sym", "height_difference")
 M_ATOM = ("sym", "col", "branch_pit", "i", "idx_branch", "MDOTINIT")
